@@ -9,7 +9,7 @@
 (*   init(order, kinds, steps, vals)  -> TraceInit (values are value ids)  *)
 (*   set_target(others)               -> SetTarget, ctx' bound to the ids  *)
 (*                                       actually passed to the joint      *)
-(*   block_step(block, start, pid, cache_ok) -> BlockStep                  *)
+(*   block_step(block, start, pid, cache_ok, tgt_ok) -> BlockStep          *)
 (*   sweep_end(vals)                  -> (all blocks extracted) vals = val *)
 (*   store(vals)                      -> Store, stored tuple bound         *)
 (*   call(op, n)                      -> NewCall after the first call      *)
@@ -39,7 +39,8 @@ TraceInit ==
     /\ tid \in 1..Len(Traces) /\ l = 2
     /\ Ev[1].e = "init" /\ Ev[1].order = Order
     /\ kind = [b \in Blocks |-> Ev[1].kinds[b]]
-    /\ steps = [b \in Blocks |-> Ev[1].steps[b]]
+    /\ steps = [b \in Blocks |-> Ev[1].steps[b]]       \* as CONFIGURED by the caller (default 1), not as the sampler reports
+    /\ \A b \in Blocks : steps[b] \in StepChoices   \* at least one transition per block and sweep
     /\ val = [b \in Blocks |-> Ev[1].vals[b]]
     /\ ctx = [b \in Blocks |-> CondOn(b, val)]
     /\ cachectx = ctx
@@ -67,6 +68,7 @@ TBlockStep ==
     /\ pc[1] = "step" /\ Ev[l].block = Cur
     /\ Ev[l].start = spoint[Cur]                                   \* the sampler continues from its own last point
     /\ (~Ev[l].cache_ok => cachectx[Cur] # ctx[Cur])               \* a stale cache must be explained by the specification
+    /\ Ev[l].tgt_ok              \* the target the sampler HOLDS is the joint conditioned on val (ctx is what was handed over)
     /\ BlockStep(Ev[l].pid, Ev[l].pid # Ev[l].start)
 
 TSweepEnd ==
